@@ -161,6 +161,9 @@ def parseChars (s : List Char) : Option (List BStmt) := pStmts (s.length + 1) s
 
 def parseBench (text : String) : Option (List BStmt) := parseChars text.toList
 
+/-- text → netlist: what the post-parse model builds from the model's own reading of the text -/
+def circOfText (text : String) : Option Circ := (parseBench text).map bench
+
 /-! ## printing -/
 
 def tokText : Tok → List Char
